@@ -37,8 +37,11 @@ class GenTemporal:
         cands = [("b0", B, []), ("b1", B, [self.T]), ("b2", B, []),
                  ("n0", tm.IntType(0, 3) if k["bounded"] else tm.IntType(), []),
                  ("n1", tm.IntType(), [self.T]),
-                 ("r0", tm.RealType(F(-1, 2), 4) if k["bounded"] and rng.random() < 0.5 else tm.RealType(), [])]
-        chosen = cands[:2] + rng.sample(cands[2:], rng.randint(2, 4))
+                 ("r0", tm.RealType(F(-1, 2), 4) if k["bounded"] and rng.random() < 0.5 else tm.RealType(), []),
+                 # one-sided bounds
+                 ("h0", tm.IntType(0, None) if k["bounded"] else tm.IntType(), []),
+                 ("h1", tm.RealType(None, F(5, 2)) if k["bounded"] else tm.RealType(), [])]
+        chosen = cands[:2] + rng.sample(cands[2:], rng.randint(2, 5))
         self.fluents = []
         for name, ty, sig in chosen:
             f = Fluent(name, ty, OrderedDict(("x%d" % i, t) for i, t in enumerate(sig)), env)
